@@ -10,8 +10,8 @@ model inverts — noise blocks, `C_inv`, the innovation covariance of the standa
 `I + V R⁻¹ U` and the assembled `S` of the factorised likelihood — is inverted once and certified
 exactly (`A·X = 1 ∧ X·A = 1`); an argument that was not certified is answered with the zero matrix.
 
-  sukf n msz bs red k s vM vP vI  y(msz) wm(s) wc(s)  means(n×k) covs(n×nk) outw(k)  X(n×sk) Yp(msz×sk)  R
-      red = 0: R is msz×msz, red = 1: R is bs×bs
+  sukf n nc msz bs red k s vM vP vI  y(msz) wm(s) wc(s)  means(n×k) covs(n×nk) outw(k)  X(n×sk) Yp(msz×sk)  R
+      nc = number of Euler-circular rows at the bottom of the state; red = 0: R is msz×msz, red = 1: R is bs×bs
    -> ok  mean(nk) cov(nnk) weight(k)   lik k L.. | nolik
           U mean(nk) cov(nnk) lik(k)            (the standard additive correction of the model, if the size divides)
       means / covariances as exact rationals, likelihoods as double bit patterns
@@ -49,7 +49,7 @@ def outGM {n k : Nat} (b : GM Rat n k) : List String :=
   (outVec ratStr b.weight)
 
 def sukf : R String := do
-  let n ← nat; let msz ← nat; let bs ← nat; let red ← bool; let k ← nat; let s ← nat
+  let n ← nat; let nc ← nat; let msz ← nat; let bs ← nat; let red ← bool; let k ← nat; let s ← nat
   let vM ← bool; let vP ← bool; let vI ← bool
   let y ← vec rat msz
   let wm ← vec rat s
@@ -63,7 +63,7 @@ def sukf : R String := do
   if bs == 0 then pure "bad-args" else
   let inp : SukfIn Rat n msz s k :=
     { validMeas := vM, validPred := vP, validInnov := vI, y := y
-      X := fun i => colBlock s k X i, Yp := fun i => colBlock s k Yp i, wm := wm, wc := wc }
+      X := fun i => colBlock s k X i, Yp := fun i => colBlock s k Yp i, nc := nc, wm := wm, wc := wc }
   let out : GM Rat n k := { b with weight := Vec.of (fun _ => 0) }   -- the caller's weights are not part of the comparison
   if hdiv : msz % bs = 0 then
     if !(vM && vP && vI) then
@@ -77,7 +77,7 @@ def sukf : R String := do
     let inv1 := invStrict eR
     let perComp := (List.finRange k).flatMap fun i =>
       let c := sukfComps inv1 bs hdiv R inp b i
-      let u := ukfComp inv1 Rc.toFull (b.mean i) (b.cov i) (inp.X i) (castRows h (inp.Yp i)) wm wc (castVec h y)
+      let u := ukfComp inv1 nc Rc.toFull (b.mean i) (b.cov i) (inp.X i) (castRows h (inp.Yp i)) wm wc (castVec h y)
       let rn : RNoise Rat nb bs := RNoise.perBlock Rc.row
       [mkEntry (Mat.eval (sukfCinv inv1 Rc c.Y)), mkEntry u.Pyy,
        mkEntry (Mat.eval (uvrM inv1 c.Y c.Y.transpose rn)), mkEntry (Mat.eval (assembleS c.Y c.Y.transpose rn))]
@@ -89,7 +89,7 @@ def sukf : R String := do
     let res : GM Rat n k := { mean := fun i => Vec.eval (res.mean i), cov := fun i => Mat.eval (res.cov i), weight := res.weight }
     let lik := Vec.eval (sukfLikelihoods inv bs hdiv R inp b)
     let us := (List.finRange k).map fun i =>
-      ukfComp inv Rc.toFull (b.mean i) (b.cov i) (inp.X i) (castRows h (inp.Yp i)) wm wc (castVec h y)
+      ukfComp inv nc Rc.toFull (b.mean i) (b.cov i) (inp.X i) (castRows h (inp.Yp i)) wm wc (castVec h y)
     let uOut := (us.flatMap fun u => outVec ratStr u.mean) ++ (us.flatMap fun u => outMatCM ratStr (Mat.eval u.cov))
       ++ (us.map fun u => outF u.lik)
     pure (join ("ok" :: outGM res ++ ["lik", toString k] ++ outVec outF lik ++ ["U"] ++ uOut))
